@@ -235,6 +235,9 @@ func canonJSON(b []byte) string {
 						break
 					}
 				}
+				if strings.HasPrefix(msg, "Internal error: res:") || strings.HasPrefix(msg, "Internal error: call to ") {
+					em["message"] = "<lib-panic>"
+				}
 			}
 		}
 	}
